@@ -75,6 +75,28 @@ def registry_events(states, seed):
     return tr
 
 
+def narrow_id_events():
+    """Group ids stored in narrow integer dtypes (survey files: byte / short columns) with a group of 130 members: counts and
+    sums must not be accumulated in the id's dtype."""
+    from _gettsim import aggregation as ag
+
+    tr = arith.ArithTrace()
+    n = 134
+    base_ids = np.array([0] * 130 + [1, 1, 2, 0])
+    vals = np.array([(i % 5) - 1 for i in range(n)])
+    for dt, ids0 in [(d_, b_) for d_ in (np.int8, np.int16, np.int32, np.uint8) for b_ in (base_ids, np.zeros(n, dtype=int))]:
+        ids = ids0.astype(dt)
+        cases = [("count", None), ("sum", vals.astype(np.int64)), ("sum", np.ones(n, dtype=bool)), ("sum", vals.astype(float) * 1.5), ("max", vals.astype(np.int64)), ("any", vals > 0)]
+        for kind, col in cases:
+            try:
+                obs = ag.grouped_count(ids) if kind == "count" else getattr(ag, f"grouped_{kind}")(col, ids)
+                tr.add({"k": "agg", "node": f"grouped_{kind}", "kind": kind, "src": tr.cells(np.zeros(n) if col is None else col), "ids": [int(x) for x in ids], "obs": tr.cells(obs)},
+                       {"via": "registry", "fn": f"grouped_{kind}", "ids": f"{np.dtype(dt).name} ids, group of 130", "dtype": "-" if col is None else str(col.dtype)})
+            except Exception as e:  # noqa: BLE001
+                tr.add({"k": "unknown", "err": type(e).__name__}, {"via": "registry", "fn": f"grouped_{kind}", "raised": f"{type(e).__name__}: {e}"[:120], "ids": np.dtype(dt).name, "dtype": "-" if col is None else str(col.dtype)})
+    return tr
+
+
 def _registry_job(job):
     states, seed = job
     return registry_events(states, seed)
@@ -193,7 +215,7 @@ def run(tier):
         states = [s for s in states if len(s["col"]) <= 4] + rnd.sample([s for s in states if len(s["col"]) == 5], 20000)
     nchunk = 16
     chunks = [states[i::nchunk] for i in range(nchunk)]
-    traces = pool_map(_registry_job, [(c, rnd.randrange(1 << 30)) for c in chunks if c])
+    traces = pool_map(_registry_job, [(c, rnd.randrange(1 << 30)) for c in chunks if c]) + [narrow_id_events()]
     nreg = sum(len(t.events) for t in traces)
     chk.count(nreg)
     bad, tstates = arith.judge(traces, chk.work, "reg")
